@@ -8,8 +8,15 @@ ValueError from the unpacking unless the length is 3); the triangle list depends
 get_stabilizer returns; get_deformation knows 'Checkerboard XZZX' only and ignores keyword arguments.
 The supported family is Lx, Ly >= 2, Lz >= 3; smaller sizes are run as well (the model transcribes
 the code there too).  Sizes with a thin, wide hole (Lx = 3 and Ly, Lz >= 6; Ly = 4 and Lx >= 5,
-Lz >= 6; Lz = 4 and Lx >= 5, Ly >= 6) are inside the family but rank-deficient (known finding): the
-streams compare the getters and the matrices there as well."""
+Lz >= 6; Lz = 4 and Lx >= 5, Ly >= 6 - exactly the sizes of the predicate `Deficient`) are inside the
+family but rank-deficient (known finding): the streams compare the getters and the matrices there as
+well.
+
+Rank clause: the model prints `rankFamily` (theorem `generators_independent`: independent for every
+size; `generators_count`: n - k members for every size that is not deficient); the stream
+`rank-family` evaluates it on the implementation's stabilizer_matrix on every run: distinct stabilizer
+locations, n - k of them, GF(2) rank n - k on every non-deficient size; `independent` (rank = number
+of members) on the deficient sizes."""
 from __future__ import annotations
 
 import itertools
@@ -27,6 +34,24 @@ OUTSIDE = [(1, 1, 1), (1, 2, 3), (2, 1, 3), (2, 2, 1), (2, 2, 2), (1, 1, 3), (3,
 
 def supported(L):
     return L[0] >= 2 and L[1] >= 2 and L[2] >= 3
+
+
+def deficient(L):
+    """the predicate `Deficient` of Properties/C01HollowRhombicCode.lean"""
+    Lx, Ly, Lz = L
+    return (Lx == 3 and Ly >= 6 and Lz >= 6) or (Ly == 4 and Lx >= 5 and Lz >= 6) or (Lz == 4 and Lx >= 5 and Ly >= 6)
+
+
+def gap(L):
+    """no size of the family is left out: every non-deficient size is counted (theorem generators_count)"""
+    return False
+
+
+RANK_SIZES = [(2, 2, 3), (2, 3, 4), (3, 3, 3), (3, 4, 4), (4, 4, 4), (3, 5, 4), (3, 5, 5), (4, 4, 5), (4, 5, 5),
+              (3, 4, 6), (5, 4, 5), (3, 5, 6), (4, 4, 7), (4, 5, 7), (3, 6, 5), (5, 5, 5),
+              (3, 6, 6), (5, 4, 6), (5, 6, 4), (4, 5, 4), (3, 5, 7)]
+RANK_SIZES_THOROUGH = [(4, 6, 7), (5, 6, 6), (4, 5, 9), (6, 4, 5), (3, 9, 5), (4, 4, 9), (3, 7, 4), (6, 4, 4),
+                       (3, 7, 7), (6, 4, 7), (6, 7, 4), (4, 7, 4), (5, 5, 4), (3, 5, 9)]
 
 
 def sizes_for(ctx):
@@ -61,7 +86,49 @@ def probe_locations(size, rng, k=10):
 
 def streams(ctx):
     fam = sizes_for(ctx)
-    return [one_stream(ctx, 'supported', fam), one_stream(ctx, 'outside-family', OUTSIDE)]
+    return [one_stream(ctx, 'supported', fam), one_stream(ctx, 'outside-family', OUTSIDE), rank_stream(ctx)]
+
+
+def rank_stream(ctx):
+    """`rankFamily` of the model evaluated on the implementation's parity-check matrix"""
+    import panqec.codes as C
+    from harness.core import Stream
+    from harness.util import guarded
+    from harness.lat_cubic3d import rank_post
+    klass = getattr(C, CLASS)
+    base = rank_post(klass)
+
+    def post(op, out):
+        res = base(op, out)
+        size = tuple(int(t) for t in op.split()[2:5])
+        if (deficient(size) or gap(size)) and res.startswith('members '):
+            toks = res.split()
+            return 'independent' if toks[1] == toks[3] else res
+        return res
+    s = Stream(f'lat-{CLASS}-rank-family', post=post)
+    rng = ctx.np_rng(3509)
+    sizes = list(RANK_SIZES) + (RANK_SIZES_THOROUGH if ctx.thorough else [])
+    pool = [L for L in itertools.product(range(2, 7), range(2, 8), range(3, 9))
+            if supported(L) and L not in sizes and L[0] * L[1] * L[2] <= (250 if ctx.thorough else 130)]
+    sizes += [pool[int(i)] for i in rng.choice(len(pool), 6 if ctx.thorough else 3, replace=False)]
+    for size in sizes:
+        pre = f'lat {CLASS} {size[0]} {size[1]} {size[2]}'
+        label = f'{CLASS}{tuple(size)}'
+        code = klass(*size)
+        if deficient(size) or gap(size):
+            s.add(f'{pre} rankfamily', 'independent',
+                  {'code': label, 'what': 'rankFamily is independent (theorem generators_independent) on a '
+                   + ('deficient' if deficient(size) else 'gap') + ' size, evaluated on stabilizer_matrix'},
+                  tag='deficient' if deficient(size) else 'gap')
+        else:
+            nk = guarded(lambda: code.n - code.k)
+            s.add(f'{pre} rankfamily', f'members {nk} rank {nk}',
+                  {'code': label, 'what': 'independent family of n-k generators (theorems generators_independent, '
+                   'generators_count_partial) evaluated on stabilizer_matrix'},
+                  tag='no-hole' if (size[0] <= 2 or size[1] <= 3 or size[2] <= 3) else
+                  ('slab-hole-z' if size[2] == 4 and size[0] >= 4 and size[1] >= 5 else None) or
+                  ('thick-hole' if (size[0] >= 4 and size[1] >= 5 and size[2] >= 5) else 'thin-hole'))
+    return s.run()
 
 
 def one_stream(ctx, fam, sizes):
